@@ -1,5 +1,6 @@
 """C17 — Cropping and extending keep data on its coordinates and hit the requested size."""
 import inspect
+import itertools
 import math
 from fractions import Fraction
 
@@ -616,15 +617,44 @@ def _kernel_stubs():
     import numpy
     from ..symtrace import Sym, Untraceable
 
-    sy = {n: Sym.var(n) for n in ("cs", "ce", "step", "s", "e", "eps")}
+    class HSym(Sym):
+        """a symbolic argument that may be put into a dictionary key (identity hash): a memo keyed by the full input
+        misses on every traced call (each call has its own array token, see `tobytes`), so the trace runs through the
+        computation itself"""
+        __slots__ = ()
+
+        def __hash__(self):
+            return id(self)
+
+    def hvar(n):
+        v = Sym.var(n)
+        return HSym(v.e, v.f)
+
+    sy = {n: hvar(n) for n in ("cs", "ce", "step", "s", "e", "eps")}
+    tokens = itertools.count(1)
+
+    class SBytes:
+        """what identifies the content of a symbolic array in a cache key: unique per array object"""
+        def __init__(self, tok, what):
+            self.key = ("symbolic-array-%d-%s" % (tok, what)).encode()
+
+        def tobytes(self, *a, **k):
+            return self.key
+
+    class SData(SBytes):
+        dtype = numpy.dtype("float64")
 
     class SArr:
         """coordinate values: the original ones and / or generated pieces, in order"""
         dtype = numpy.dtype("float64")
         ndim = 1
 
-        def __init__(self, pieces):
+        def __init__(self, pieces, tok=0):
             self.pieces = list(pieces)
+            self.tok = tok
+
+        def tobytes(self, *a, **k):
+            return ("symbolic-coords-%d-%r" % (self.tok, self.pieces)).encode()
 
         def __getitem__(self, k):
             if isinstance(k, int) and not isinstance(k, bool):
@@ -680,8 +710,9 @@ def _kernel_stubs():
         dims = (_DIM,)
         __hash__ = None
 
-        def __init__(self):
+        def __init__(self, tok=0):
             self.attrs = {"step": sy["step"], "units": "s"}
+            self.tok = tok
 
         def __ge__(self, v):
             return SMask(lo=v)
@@ -689,11 +720,11 @@ def _kernel_stubs():
         def __le__(self, v):
             return SMask(hi=v)
 
-        data = property(lambda self: SArr([("orig",)]))
-        values = property(lambda self: SArr([("orig",)]))
+        data = property(lambda self: SArr([("orig",)], self.tok))
+        values = property(lambda self: SArr([("orig",)], self.tok))
 
         def to_numpy(self):
-            return SArr([("orig",)])
+            return SArr([("orig",)], self.tok)
 
         def min(self, *a, **k):
             return sy["cs"]
@@ -702,11 +733,11 @@ def _kernel_stubs():
             return sy["ce"]
 
         def __getitem__(self, k):
-            return SArr([("orig",)])[k]
+            return SArr([("orig",)], self.tok)[k]
 
     class SMap:
-        def __init__(self):
-            self.c = SCoord()
+        def __init__(self, tok=0):
+            self.c = SCoord(tok)
 
         def __getitem__(self, key):
             if key != _DIM:
@@ -723,20 +754,33 @@ def _kernel_stubs():
         """what the label slice / the reindexing returned"""
         def __init__(self, kind, payload):
             self.kind, self.payload = kind, payload
-            self.coords = SMap()
+            self.coords = SMap(next(tokens))
             self.attrs = {}
 
         def __getitem__(self, key):
             return self.coords[key]
 
+        def copy(self, *a, **k):       # a cached / returned copy of the result is the result
+            return self
+
     class SDataArray:
         dims = (_DIM,)
         ndim = 1
+        name = None
+        dtype = numpy.dtype("float64")
 
         def __init__(self):
-            self.coords = SMap()
-            self.indexes = SMap()
+            self.tok = next(tokens)
+            self.coords = SMap(self.tok)
+            self.indexes = SMap(self.tok)
             self.attrs = {}
+            self.shape = ("symbolic-length-%d" % self.tok,)      # usable in a key, not in arithmetic
+
+        values = property(lambda self: SData(self.tok, "values"))
+        data = property(lambda self: SData(self.tok, "values"))
+
+        def copy(self, *a, **k):
+            return self
 
         def __getitem__(self, key):
             return self.coords[key]
